@@ -670,6 +670,20 @@ def run(ctx: Context) -> None:
     r3_validate_dominates_write(ctx)
     r4_single_writer(ctx, sm)
     r5_siblings(ctx, sm)
+    # R6: single-step closure only yields legal HISTORIES if read-validate-write is one critical section per invocation
+    # (otherwise two accepted requests validated against the same record write a non-edge): shared with C02/R1-R3
+    from . import c02
+
+    ctx.rule("R6", "the step relation is applied atomically: validation and write of one invocation's record form one critical section (in-memory: one never-discarded lock per invocation; SQLite: BEGIN IMMEDIATE) - shared with C02/R1-R3")
+    sub = Context("C02", ctx.repo, ctx.tier, ctx.seed)
+    sub._resolver = ctx._resolver
+    c02.r1_sqlite(sub, sqlmini.sites(ctx.repo))
+    c02.r2_r3_mem(sub)
+    for i in sub.instances:
+        k = i.key.split("/", 2)[2]
+        if "_atomic_status_transition" in k or "MemOrchestrator" in k:  # the status transition only (the queue pop is C02 / C08)
+            ctx.add("R6", k, i.ok, i.where, i.detail)
+    ctx.floor("R6", "atomic-step obligations", ctx.count("R6"), 8)
     ctx.exhaustive = True
     ctx.not_decided += [
         "multi-step request sequences beyond what single-step closure + single writer + atomicity (C02) imply",
